@@ -43,8 +43,15 @@ func (c *Ctx) evalCallMode(st *State, call *ast.CallExpr, spawn bool) []Val {
 	if c.prefix == "" && c.unit.Contract != nil && len(c.unit.Contract.Points) > 0 {
 		if n, ok := c.callOrd[call]; ok {
 			c.pointClauses(st, fmt.Sprintf("before call %s#%d", types.ExprString(call.Fun), n), call.Pos())
+			rs := c.evalCallInner(st, call, spawn)
+			c.pointClauses(st, fmt.Sprintf("after call %s#%d", types.ExprString(call.Fun), n), call.End())
+			return rs
 		}
 	}
+	return c.evalCallInner(st, call, spawn)
+}
+
+func (c *Ctx) evalCallInner(st *State, call *ast.CallExpr, spawn bool) []Val {
 	// conversion
 	if tv, ok := c.info.Types[call.Fun]; ok && tv.IsType() {
 		return []Val{c.evalConversion(st, call, tv.Type)}
